@@ -153,6 +153,10 @@ def build_linearity(ck):
             o, x = makers[name](S)
             out = S.call(S.I.getattr(o, 'mv'), [x])
             trail = '; '.join(S.run.ghost.get('lin_events', [])[:4])
+            # the native oracle of this facet does not depend on the symbolic case (one instance per class): keep the case
+            # in the note, so that all paths of a class share one native replay
+            case = ', '.join(f'{k}={v}' for k, v in S.inputs.items() if isinstance(v, (str, int)))
+            S.inputs.clear()
             if not out.normal:
                 # a refusal (ValueError for unbroadcastable shapes, NotImplementedError for a foreign pytree) is not a
                 # result: nothing to prove on this path
@@ -160,7 +164,7 @@ def build_linearity(ck):
                 return
             ok, why = LN.is_linear_result(S.I, out.value)
             S.oblige('lin', ok, tag='mv(x)-is-a-linear-function-of-x (every leaf Lin or Zero)',
-                     note=(why + ' | ' + trail) if not ok else None)
+                     note=(f'[{case}] ' + why + ' | ' + trail) if not ok else None)
             inner = S.run.ghost.get('lin_failures', [])
             S.oblige('lin', not inner, tag='linearity-preconditions-of-the-primitives-hold-on-this-path',
                      note='; '.join(inner))
@@ -168,6 +172,38 @@ def build_linearity(ck):
         ck.explore(f'{ci.fullname}.mv', sc, T, label='linear', contracts=contracts, loop_specs=loop_specs)
     for name in todo:
         run_scenario(name)
+
+    # ---- compositions and sums of an UNBOUNDED number of operands (flat lists of symbolic length): loop invariants
+    # "the running value is a linear function of the input"; operands return pytrees of unknown structure
+    unb = dict(contracts)
+    unb[f'{CORE}.OtherOperator.mv'] = lambda interp, fi, args, kwargs: LN.LTree(LN.tree_tag(interp, args[1]),
+                                                                             what=f'{args[0]!r}.mv(..)')
+
+    def linear_carry(name):
+        return LoopSpec(invariant=lambda L: LN.is_linear_result(L.interp, L.var(name))[0],
+                        havoc=lambda L: L.set(name, LN.LTree(LN.LIN, what=f'{name} (loop carry)')),
+                        name=f'{name}-is-a-linear-function-of-the-input')
+
+    def unbounded(clsname, carry):
+        def sc(S):
+            S.oracle = {'name': 'linearity', 'cls': clsname, 'expressions': True}
+            n = S.int('n_operands')
+            S.assume(n >= 0)
+            ops = SSeq(n, lambda k: Obj(F.Other, tag=f'operand[{k}]'), 'list')
+            o = S.new(clsname, operands=B.PyList(None, seq=ops))
+            x = C18.x_tree(S, F)
+            S.inputs.clear()
+            out = S.call(S.I.getattr(o, 'mv'), [x])
+            if not out.normal:
+                S.oblige('lin', out.raised('IndexError'), tag=f'path-raises-{out.value.name} (a sum without terms; no result)')
+                return
+            ok, why = LN.is_linear_result(S.I, out.value)
+            S.oblige('lin', ok, tag='mv(x)-is-a-linear-function-of-x (any number of operands)', note=why)
+        ci = P.cls(clsname)
+        ck.explore(f'{ci.fullname}.mv', sc, T, label='linear-any-number-of-operands', contracts=unb,
+                   loop_specs={(f'{ci.fullname}.mv', 0): linear_carry(carry)})
+    unbounded('CompositionOperator', 'x')
+    unbounded('AdditionOperator', 'y')
 
 
 # ====================================================================== (a') Stokes operators, facet `point`
